@@ -8,6 +8,9 @@ P2 = "Player 2"
 PR = "Probabilistic"
 
 
+from fractions import Fraction
+
+
 def build_model(moves, rewards, loose, p_tile, p_robot, p_light, variant):
     """-> (states: dict name -> (owner, reward, transitions[(label|prob, name)]), initial name, finals set)"""
     L, W = len(moves), len(moves[0])
@@ -91,7 +94,7 @@ def bisimilar(A, B):
     block = {}
     ids = {}
     for k, (owner, rew, fin, _) in nodes.items():
-        sig = (owner, float(rew), fin)
+        sig = (owner, Fraction(rew), fin)           # exact: an int no double represents (2^53+1) is not equal to its nearest float
         block[k] = ids.setdefault(sig, len(ids))
     rounds = 0
     while True:
